@@ -103,6 +103,19 @@ JUNK = [None, 0, -1, 3.5, "", "x", True, [], [0], ["x"], {}, {"a": 1}, [{"a": "b
         {"extension-definition--311b2d2d-f010-4473-83ec-1edf84858f4c": 5}, {"extension-definition--311b2d2d-f010-4473-83ec-1edf84858f4c": {"extension_type": 7}},
         # text that is hostile to message formatting, as value and as dictionary key
         "{x}", "%s %(a)s", {"{x}": "v"}, {"{0.x}": 1}, {"{1}": [1]}, {"%s": 1}, {"%(a)s": {"{": "}"}}, [{"{x}": "{y}"}], {"a{}b": ["{0}"]}, ["{0!r:>{1}}"]]
+# values nested deeper than the interpreter's recursion limit (kept out of JUNK itself: repr/deepcopy/json.dumps of them recurse too)
+DEEP_N = 3000
+
+
+def _deep(kind):
+    v = [] if kind == "list" else {}
+    for _ in range(DEEP_N):
+        v = [v] if kind == "list" else {"a": v}
+    return v
+
+
+DEEP = {"@@deep-list@@": (_deep("list"), "[" * (DEEP_N + 1) + "]" * (DEEP_N + 1)), "@@deep-dict@@": (_deep("dict"), '{"a":' * DEEP_N + "{}" + "}" * DEEP_N)}
+JUNK += list(DEEP)
 NJ = len(JUNK)
 
 
@@ -201,6 +214,11 @@ def table_junk(ci: int, allow: bool) -> bool:
 def run_table_case(ci, ji, allow):
     ver, cat, name, path, base = CASES[ci]
     doc = set_path(base, path, None, delete=True) if ji == NJ else set_path(base, path, JUNK[ji])
+    deep = ji < NJ and isinstance(JUNK[ji], str) and JUNK[ji] in DEEP
+    text = json.dumps(doc)
+    if deep:
+        text = text.replace(json.dumps(JUNK[ji]), DEEP[JUNK[ji]][1])
+        doc = set_path(base, path, DEEP[JUNK[ji]][0])
     before = reg_snapshot()
     ok = True
     for how in range(3):
@@ -215,7 +233,7 @@ def run_table_case(ci, ji, allow):
                     continue
                 stix2.parse(doc, allow_custom=allow)            # version detection runs on the raw input
             else:
-                stix2.parse(json.dumps(doc), allow_custom=allow, version=ver) if cat != "observables" else None
+                stix2.parse(text, allow_custom=allow, version=ver) if cat != "observables" else None
         except ALLOWED:
             pass
         except RecursionError:
